@@ -616,6 +616,7 @@ func replayVal(c *core.Ctx, b *Built, p *valPayload) ([]finding, error) {
 			}
 			if p.Orig2 && p.JSON != nil {
 				checkJSON(c, b, p, s.Dump.JSON, add)
+				jsonFromTL1 = s.Dump.JSON // reference text of the string variant for TL2-declared types
 			}
 			if !p.Orig2 && s.Dump.JSON != jsonFromTL1 {
 				add("conv", "json-differs/"+hexs(p.TL1), fmt.Sprintf("JSON after TL1 decode %s, after TL2 decode %s", jsonFromTL1, s.Dump.JSON))
@@ -636,7 +637,9 @@ func bytesVariantChecks(c *core.Ctx, b *Built, p *valPayload, stringVariantJSON 
 		step map[string]any
 	}
 	var ins []inp
-	ins = append(ins, inp{"read1", map[string]any{"op": "read1", "in": p.TL1}})
+	if !p.Orig2 { // types declared in TL2 have no TL1 form
+		ins = append(ins, inp{"read1", map[string]any{"op": "read1", "in": p.TL1}})
+	}
 	if p.HasTL2 {
 		ins = append(ins, inp{"read2", map[string]any{"op": "read2", "in": p.TL2}})
 	}
@@ -655,13 +658,16 @@ func bytesVariantChecks(c *core.Ctx, b *Built, p *valPayload, stringVariantJSON 
 		s := r.Steps[0]
 		c.Add("evaluations", 1)
 		key := in.op + "/" + hexs(p.TL1)
+		if p.Orig2 {
+			key = in.op + "/" + hexs(p.TL2)
+		}
 		switch {
 		case s.Panic != "":
 			add("bytesvar", key, "[]byte variant panics: "+s.Panic)
 		case s.Err != "":
 			add("bytesvar", key, fmt.Sprintf("[]byte variant rejects %s of a valid input: %s", in.op, s.Err))
 		default:
-			if s.Dump.TL1Err != "" || !eqInts(s.Dump.TL1, p.TL1) {
+			if !p.Orig2 && (s.Dump.TL1Err != "" || !eqInts(s.Dump.TL1, p.TL1)) {
 				add("bytesvar", key, fmt.Sprintf("[]byte variant after %s writes TL1 %s %s, string variant/spec %s", in.op, hexs(s.Dump.TL1), s.Dump.TL1Err, hexs(p.TL1)))
 			}
 			if p.HasTL2 && s.Dump.HasTL2 && !eqInts(s.Dump.TL2, p.TL2) {
@@ -673,7 +679,7 @@ func bytesVariantChecks(c *core.Ctx, b *Built, p *valPayload, stringVariantJSON 
 				}
 			}
 			// "identical encodings": for the same content the two variants must print the same JSON text
-			if stringVariantJSON != "" && in.op == "read1" && s.Dump.JSON != stringVariantJSON {
+			if stringVariantJSON != "" && (in.op == "read1" || p.Orig2 && in.op == "read2") && s.Dump.JSON != stringVariantJSON {
 				add("bytesvar", key, fmt.Sprintf("[]byte variant prints JSON %s, the string variant %s", s.Dump.JSON, stringVariantJSON))
 			}
 		}
